@@ -106,6 +106,8 @@ def attempts(p, callees=(), configs=(), full=True):
     stmts = list(walk_stmts(p))
     out.append({"op": "simplify", "path": [], "args": {}})
     out.append({"op": "delete_pass", "path": [], "args": {}})
+    out.append({"op": "std:cleanup", "path": [], "args": {}})
+    out.append({"op": "std:unroll_loops", "path": [], "args": {}})
     allocs = [(path, c) for path, c, _ in stmts if isinstance(c, C.AllocCursor)]
     for path, c, iters in stmts:
         nxt = c.next()
@@ -124,8 +126,15 @@ def attempts(p, callees=(), configs=(), full=True):
         A("add_loop", path, iter="z", hi="3", guard=True)
         if size_args:
             A("add_loop", path, iter="z", hi=size_args[0], guard=False)
+            A("add_loop", path, iter="z", hi=size_args[0] + " - 1", guard=True)
+            A("add_loop", path, iter="z", hi=size_args[0] + " - 1", guard=False)
         for cnd in conds[:4]:
             A("specialize", path, cond=cnd)
+        if len(path) > 1:
+            A("std:hoist_stmt", path)
+            A("std:jam_stmt", path)
+        A("std:reorder_stmt_forward", path)
+        A("std:reorder_stmt_backwards", path)
         A("extract_subproc", path, name="sub_x", n=1)
         if has_next:
             A("extract_subproc", path, name="sub_y", n=2)
@@ -160,6 +169,10 @@ def attempts(p, callees=(), configs=(), full=True):
             if has_next and isinstance(nxt, C.ForCursor):
                 A("join_loops", path)
                 A("fuse", path)
+            for std in ("interleave_loop", "unroll_and_jam", "hoist_from_loop", "fission_into_singles", "tile_loops",
+                        "bound_loop_by_if", "divide_loop_recursive", "round_loop", "cut_loop_and_unroll",
+                        "undo_divide_and_guard_loop", "unroll_loops", "parallelize_all_reductions"):
+                A("std:" + std, path)
             A("divide_with_recompute", path, outer_hi=f"({hi}) / 2", outer_stride=2, iters=[it + "o", it + "i"])
             A("divide_with_recompute", path, outer_hi=f"({hi}) / 2 - 1", outer_stride=2, iters=[it + "o", it + "i"])
             # staging of buffers accessed in the loop
@@ -175,6 +188,7 @@ def attempts(p, callees=(), configs=(), full=True):
                         A("stage_mem", path, win=pt, name=b + "_q", accum=False)
         # --- ifs
         if isinstance(c, C.IfCursor):
+            A("std:lift_if", path)
             A("lift_scope", path)
             A("eliminate_dead_code", path)
             if has_next and isinstance(nxt, C.IfCursor):
@@ -285,6 +299,29 @@ def apply_attempt(p, att, env):
     op, path, a = att["op"], att["path"], att["args"]
     try:
         c = locate(p, path) if path else None
+        if op.startswith("std:"):
+            import exo.stdlib.stdlib as L
+            import exo.stdlib.scheduling as SS
+            name = op[4:]
+            if name == "cleanup":
+                r = L.cleanup(p)
+            elif name == "unroll_loops":
+                r = L.unroll_loops(p) if c is None else L.unroll_loops(p, c.as_block())
+            elif name in ("interleave_loop", "unroll_and_jam", "divide_loop_recursive", "round_loop"):
+                r = getattr(L, name)(p, c, 2)
+            elif name == "tile_loops":
+                r = L.tile_loops(p, [(c, 2)])
+            elif name == "cut_loop_and_unroll":
+                r = L.cut_loop_and_unroll(p, c, 1)
+            elif name == "lift_if":
+                r = SS.lift_if(p, c)
+            else:
+                r = getattr(L, name)(p, c)
+            while isinstance(r, tuple):
+                r = r[0]
+            if not hasattr(r, "INTERNAL_proc"):
+                raise Rejected("NotAProcedure", f"{name} returned {type(r).__name__}")
+            return r
         if op == "simplify":
             return S.simplify(p)
         if op == "delete_pass":
